@@ -345,6 +345,15 @@ func c05Eval(c *c05Case) (req, impl, verdict string) {
 		if inClosed {
 			if d := c05AllDangling(run.out, 1); len(d) > 0 {
 				verdict = fmt.Sprintf("FAIL chain lang=%s %s %s", c.lang, c05BrokenBy(c05Chain(c.lang), c.ss), c05DanglingText(d[0]))
+				if k := d[0].use.kind; k == "mapping" || k == "gmapping" {
+					// a bare name that exists in another package: the type was moved across packages
+					for _, s := range c.ss {
+						if s.Package != d[0].use.pkg && s.Objects.Has(d[0].use.name) {
+							verdict += " exists-in=" + s.Package
+							break
+						}
+					}
+				}
 			}
 		}
 		if verdict == "ok" && inClosed && !c05HasCycle(run.out) {
